@@ -314,18 +314,8 @@ func checkC04(p *Prog, r *Report) {
 	r.Rule("C04/FIRST-ERROR-ABORTS", "in receiver.(*Transfer).Do both goroutines are started on one errgroup from errgroup.WithContext, and touchUpDirs, report and the final WriteInt32 are dominated by eg.Wait() having returned nil", 4)
 	do := anchorFunc(p, r, pkgReceiver, "Transfer", "Do")
 	if do != nil {
-		var wait *ssa.Call
-		var goCalls []ssa.CallInstruction
-		allCalls(do, func(c ssa.CallInstruction) {
-			switch calleeName(c) {
-			case "(*golang.org/x/sync/errgroup.Group).Wait":
-				if call, ok := c.(*ssa.Call); ok {
-					wait = call
-				}
-			case "(*golang.org/x/sync/errgroup.Group).Go":
-				goCalls = append(goCalls, c)
-			}
-		})
+		// the join may live in a helper of Do that returns eg.Wait()'s result
+		wait, goCalls, joinInDo := findJoin(p, do)
 		okGroup := wait != nil && len(goCalls) == 2
 		if okGroup {
 			for _, gc := range goCalls {
@@ -339,7 +329,7 @@ func checkC04(p *Prog, r *Report) {
 			}
 		}
 		r.Cond(okGroup, "C04/FIRST-ERROR-ABORTS", "Do: two eg.Go on one WithContext group joined by eg.Wait", p.Pos(do.Pos()), "generator and receiver must run on the same errgroup (first error cancels, Wait joins)")
-		if wait != nil {
+		if wait != nil && joinInDo != nil {
 			allCalls(do, func(c ssa.CallInstruction) {
 				n := calleeName(c)
 				sc := c.Common().StaticCallee()
@@ -353,7 +343,7 @@ func checkC04(p *Prog, r *Report) {
 				if label == "" {
 					return
 				}
-				known, isNil := errIsNilAt(c, wait)
+				known, isNil := errIsNilAt(c, joinInDo)
 				r.Cond(known && isNil, "C04/FIRST-ERROR-ABORTS", "Do → "+label+" after Wait()==nil", p.Pos(instrPos(c)), "effect not dominated by a nil result of eg.Wait()")
 			})
 		}
@@ -400,4 +390,51 @@ func cellLoadOf(a *ssa.Alloc) ssa.Value {
 		}
 	}
 	return a
+}
+
+// findJoin locates the errgroup join of receiver.(*Transfer).Do: the eg.Wait()
+// call and the eg.Go calls — in Do itself, or in a same-package helper of Do
+// every return of which returns that Wait's result. joinInDo is the value in
+// Do that carries the join's error (the Wait call, or the call of the helper).
+func findJoin(p *Prog, do *ssa.Function) (wait *ssa.Call, goCalls []ssa.CallInstruction, joinInDo *ssa.Call) {
+	scan := func(fn *ssa.Function) (*ssa.Call, []ssa.CallInstruction) {
+		var w *ssa.Call
+		var gs []ssa.CallInstruction
+		allCalls(fn, func(c ssa.CallInstruction) {
+			switch calleeName(c) {
+			case "(*golang.org/x/sync/errgroup.Group).Wait":
+				if call, ok := c.(*ssa.Call); ok {
+					w = call
+				}
+			case "(*golang.org/x/sync/errgroup.Group).Go":
+				gs = append(gs, c)
+			}
+		})
+		return w, gs
+	}
+	if w, gs := scan(do); w != nil {
+		return w, gs, w
+	}
+	var out *ssa.Call
+	allCalls(do, func(c ssa.CallInstruction) {
+		h := c.Common().StaticCallee()
+		call, isCall := c.(*ssa.Call)
+		if h == nil || !isCall || h.Blocks == nil || pkgPathOfFunc(h) != pkgReceiver {
+			return
+		}
+		w, gs := scan(h)
+		if w == nil {
+			return
+		}
+		for _, b := range h.Blocks {
+			if ret, ok := lastInstr(b).(*ssa.Return); ok {
+				rs := retResults(ret)
+				if len(rs) != 1 || rs[0] != ssa.Value(w) {
+					return
+				}
+			}
+		}
+		wait, goCalls, out = w, gs, call
+	})
+	return wait, goCalls, out
 }
